@@ -251,10 +251,12 @@ structure WSt where
   frames : List (Frame × Nat) := []   -- frames not yet completely read by the remote, bytes remaining
   issued : List Cmd := []         -- ghost: every command taken from a consumer
   sent : List Frame := []         -- ghost: every frame encoded
+  owed : List Nat := []           -- ghost: registered SYNC consumers for which no sync frame was encoded since
   deriving Repr
 
 def encode (s : WSt) (f : Frame) : WSt :=
-  { s with buf := s.buf + f.len s.hdr, frames := s.frames ++ [(f, f.len s.hdr)], sent := s.sent ++ [f] }
+  { s with buf := s.buf + f.len s.hdr, frames := s.frames ++ [(f, f.len s.hdr)], sent := s.sent ++ [f],
+           owed := match f with | .sync => [] | _ => s.owed }
 
 def winit (cap hdr : Nat) : WSt := encode { cap := cap, hdr := hdr } .link
 
@@ -305,7 +307,8 @@ def wmicro (s : WSt) : Option WSt :=
     else match s.regQ with
       | r :: rest =>
         -- `SuspendedResult::NewRegistration(Some(..))`
-        some { s with regQ := rest, producers := s.producers ++ [r.1], needsSync := s.needsSync || r.2 }
+        some { s with regQ := rest, producers := s.producers ++ [r.1], needsSync := s.needsSync || r.2,
+                      owed := if r.2 then s.owed ++ [r.1] else s.owed }
       | [] => if s.reqClosed then some (stopW s) else none
   | .idle =>
     if s.producers.isEmpty then
@@ -333,7 +336,7 @@ def wmicro (s : WSt) : Option WSt :=
         else
           -- the flush is pending: remember the SYNC, wait for the flush (`do_flush`)
           some { s with regQ := rest, producers := s.producers ++ [r.1], needsSync := s.needsSync || r.2,
-                        mode := .writing }
+                        mode := .writing, owed := if r.2 then s.owed ++ [r.1] else s.owed }
       | [] => if s.reqClosed then some (stopW s) else none
 
 /-- Run to quiescence (the fuel is never exhausted on the traces of the correspondence). -/
@@ -368,11 +371,11 @@ def onCommand (s : WSt) (c : Cmd) : WSt :=
 def onProducersEmpty (s : WSt) : WSt :=
   match s.mode with
   | .idle =>
-    if s.flushed || s.buf == 0 then { s with producers := [], flushed := true }
+    if s.flushed || s.buf == 0 then { s with producers := [], flushed := true, owed := [] }
     else if s.sockClosed then stopW s
-    else { s with producers := [], mode := .writing }
-  | .writing => { s with producers := [], needsSync := false }
-  | _ => { s with producers := [] }
+    else { s with producers := [], mode := .writing, owed := [] }
+  | .writing => { s with producers := [], needsSync := false, owed := [] }
+  | _ => { s with producers := [], owed := [] }
 
 def consume : Nat → List (Frame × Nat) → List (Frame × Nat) × List Frame
   | _, [] => ([], [])
@@ -388,7 +391,7 @@ def winput (s : WSt) : WEv → WSt × Nat × List Frame
   | .producerClosed id =>
     if s.producers.contains id then
       if (s.producers.erase id).isEmpty then (onProducersEmpty s, 0, [])
-      else ({ s with producers := s.producers.erase id }, 0, [])
+      else ({ s with producers := s.producers.erase id, owed := s.owed.filter (fun i => i != id) }, 0, [])
     else (s, 0, [])
   | .drain k =>
     ({ s with pipe := s.pipe - min k s.pipe, frames := (consume (min k s.pipe) s.frames).1 },
